@@ -46,6 +46,10 @@ def _simpleiot_crash(stderr):
             for f in funcs:
                 if f.startswith("runtime.") or f.startswith("panic(") or f.startswith("reflect."):
                     continue
+                # frames of the standard library (encoding/binary, strings, ...) between the panic and its caller
+                name = f.split("(")[0]
+                if not name.startswith("main.") and ("." not in name.split("/")[0] if "/" in name else True):
+                    continue
                 if f.startswith("github.com/simpleiot/simpleiot/"):
                     return {"panic": ln[:300], "stack": frames[:14]}
                 break
